@@ -1,6 +1,6 @@
 (* Command dispatcher of the extracted engine. *)
 From Zorg Require Import Base.PyStr Base.Sexp Base.Res.
-From Zorg Require Import Model.FileGroups Model.Zid Model.Rename Model.Templates Model.SavedQ Model.ActionOpen Model.FileListener Model.NoteText Model.Executor Model.Move Model.QueryListener.
+From Zorg Require Import Model.FileGroups Model.Zid Model.Rename Model.Templates Model.SavedQ Model.ActionOpen Model.FileListener Model.NoteText Model.Executor Model.Move Model.QueryListener Model.Where.
 
 Definition commands : list (str * (list sexp -> sexp)) :=
   [ (S "expand", cmd_expand)
@@ -23,6 +23,7 @@ Definition commands : list (str * (list sexp -> sexp)) :=
   ; (S "move", cmd_move)
   ; (S "qlisten", cmd_qlisten)
   ; (S "process_query", cmd_process_query)
+  ; (S "eval_where", cmd_eval_where)
   ].
 
 Fixpoint find_cmd (n : str) (l : list (str * (list sexp -> sexp))) : option (list sexp -> sexp) :=
